@@ -32,4 +32,13 @@ def load (p : Profile) (null : Bool) (mem : Bytes) : Res (Ex LoadErr Loaded) :=
       let size ← rd32 region (o + 4)
       if typ = 0 ∧ size = 8 then pure (.ok ⟨0, d, d⟩) else pure (.error .noEndTag)
 
+/-- the outcome of `load` as a function of the three words it depends on: the declared total size and the two words of the
+    last 8 bytes of the declared region (`C02.load_eq_closed`). Used by the driver for regions too large to write down
+    (family LOADBIG: declared sizes up to 4 GiB, really mapped by the harness). -/
+def loadClosed (t tailTyp tailSize : Nat) : Res (Ex LoadErr Loaded) :=
+  if t < 8 then .ok (.error (.memory .shorterThanHeader))
+  else if t % 8 ≠ 0 then .ok (.error (.memory .missingPadding))
+  else if tailTyp = 0 ∧ tailSize = 8 then .ok (.ok ⟨0, t, t⟩)
+  else .ok (.error .noEndTag)
+
 end Mb2
